@@ -194,3 +194,31 @@ pub mod c13 {
         }
     }
 }
+
+// C12 R4e control: ordering values by their address
+pub mod c12order {
+    use std::ptr::NonNull;
+    pub fn bad_sort(v: &mut Vec<NonNull<u64>>) { v.sort_unstable(); }
+    pub fn bad_cmp(a: *const u8, b: *const u8) -> bool { a < b }
+    pub fn good_sort(v: &mut Vec<u64>) { v.sort_unstable(); }
+}
+
+// C16 R3 control: rewriting serialized text with a structure-blind substitution
+pub mod c16text {
+    pub fn to_string_pretty(v: &u32) -> Result<String, ()> { Ok(format!("{{\n  \"a\": {}\n}}", v)) }
+    pub fn bad_reindent(v: &u32, unit: &str) -> String {
+        to_string_pretty(v).map(|s| s.replace("  ", unit)).unwrap_or_default()
+    }
+    pub fn good_reindent(v: &u32, unit: &str) -> String {
+        let s = to_string_pretty(v).unwrap_or_default();
+        let mut out = String::new();
+        for line in s.lines() {
+            let body = line.trim_start();
+            let depth = (line.len() - body.len()) / 2;
+            for _ in 0..depth { out.push_str(unit); }
+            out.push_str(body);
+            out.push('\n');
+        }
+        out
+    }
+}
